@@ -254,6 +254,9 @@ type labCase struct {
 	defaults func(ctx sdk.Context, n *engine.Node) error
 	stored   func(ctx sdk.Context, n *engine.Node) (string, error) // rendered stored params + their Validate
 	genesis  func(n *engine.Node, gs simapp.GenesisState)
+	// extra: operations that only exist under P (a cross-chain transfer of an asset P adds);
+	// they join the sampled workload operations in the differential
+	extra func(n *engine.Node) []sdk.Msg
 }
 
 func (m *ParamLab) caseOf(w *engine.World, a labArgs) *labCase {
@@ -411,6 +414,35 @@ func (m *ParamLab) caseOf(w *engine.World, a labArgs) *labCase {
 				n.App.AppCodec().MustUnmarshalJSON(gs[htlctypes.ModuleName], &g)
 				g.Params = p
 				gs[htlctypes.ModuleName] = n.App.AppCodec().MustMarshalJSON(&g)
+			},
+			extra: func(n *engine.Node) []sdk.Msg {
+				// for every asset of P: the deputy opens an incoming transfer and a user an
+				// outgoing one, in the very block the set came into force (before the next
+				// begin block has seen it)
+				var out []sdk.Msg
+				for i, as := range p.AssetParams {
+					if _, err := sdk.AccAddressFromBech32(as.DeputyAddress); err != nil || as.Denom == "" || as.MinSwapAmount.IsNil() || as.MaxSwapAmount.IsNil() || as.FixedFee.IsNil() {
+						continue
+					}
+					amt := as.MinSwapAmount
+					if amt.LTE(as.FixedFee) {
+						amt = as.FixedFee.AddRaw(1)
+					}
+					if !amt.IsPositive() || amt.GT(as.MaxSwapAmount) {
+						continue
+					}
+					if sdk.ValidateDenom(as.Denom) != nil {
+						continue
+					}
+					lock := as.MinBlockLock
+					hl := fmt.Sprintf("%064x", 0x5151+i)
+					user := w.A(2 + i%2).Addr.String()
+					out = append(out, &htlctypes.MsgCreateHTLC{Sender: as.DeputyAddress, To: user, ReceiverOnOtherChain: "other-chain-deputy", SenderOnOtherChain: "other-chain-sender",
+						Amount: sdk.NewCoins(sdk.NewCoin(as.Denom, amt)), HashLock: hl, Timestamp: uint64(n.Time.Unix()), TimeLock: lock, Transfer: true})
+					out = append(out, &htlctypes.MsgCreateHTLC{Sender: user, To: as.DeputyAddress, ReceiverOnOtherChain: "other-chain-user", SenderOnOtherChain: "other-chain-deputy",
+						Amount: sdk.NewCoins(sdk.NewCoin(as.Denom, amt)), HashLock: fmt.Sprintf("%064x", 0x6161+i), Timestamp: uint64(n.Time.Unix()), TimeLock: lock, Transfer: true})
+				}
+				return out
 			}}
 	}
 	return nil
@@ -576,6 +608,21 @@ func (m *ParamLab) OnFault(w *engine.World, f engine.Fault) {
 			w.Violate("C16", fmt.Sprintf("handler-abort/%s/%s/%s", a.Module, sdk.MsgTypeURL(msg), po.site),
 				"under %s parameters that pass validation (%s) the message %s aborts (%s) while under the defaults it ends %q: %s",
 				a.Module, storedStr, sdk.MsgTypeURL(msg), po.text, do.class, do.text)
+		}
+	}
+	if c.extra != nil {
+		for _, msg := range c.extra(n) {
+			po := runMsg(n, pctx, msg)
+			do := runMsg(n, dctx, msg)
+			w.Hit("C16.differential_msgs")
+			w.Hit("C16.differential_extra_msgs")
+			w.Hit("C16.outcome." + po.class)
+			if po.class == "panic" && do.class != "panic" {
+				w.Violate("C16", fmt.Sprintf("handler-abort/%s/%s/%s", a.Module, sdk.MsgTypeURL(msg), po.site),
+					"under %s parameters that pass validation (%s) the message %s aborts (%s) while under the parameters the chain runs with it ends %q: %s",
+					a.Module, storedStr, sdk.MsgTypeURL(msg), po.text, do.class, do.text)
+				break
+			}
 		}
 	}
 	// the next blocks on both branches: objects fall due (requests expire, batches start,
